@@ -323,7 +323,10 @@ func c12Explore(src *choice.Src) *core.Result {
 	if parsed {
 		viol := ref.ZipRestrictionViolation(right, listing)
 		wantOK := mod.valid && viol == ""
-		if checkOK != wantOK {
+		// "sizes match their declarations" is one of the restrictions: an archive whose data contradict the
+		// declarations may be refused by the zip check although its listing alone is acceptable (if it is
+		// accepted, that is judged below against what extraction does)
+		if checkOK != wantOK && !(!dataMatches && !checkOK && wantOK) {
 			res.Fail("C12", "checkzip-iff-restrictions", "the zip check does not accept exactly the archives that satisfy the documented restrictions",
 				"CheckZip error=%v; by the documented rules the archive is acceptable=%v (%s; module valid=%v); entries %v", zerr, wantOK, viol, mod.valid, listingDesc(listing))
 			return c12Done(res, mod.m.String(), source, targetState, entries, archive)
@@ -348,6 +351,13 @@ func c12Explore(src *choice.Src) *core.Result {
 		}
 	} else if uerr == nil {
 		res.Fail("C12", "lying-sizes-rejected", "extraction succeeded although an entry's content does not match its declaration", "reading the archive back fails with %v; Unzip succeeded; entries %v", lerr, listingDesc(listing))
+		return c12Done(res, mod.m.String(), source, targetState, entries, archive)
+	} else if checkOK {
+		// the property's "exactly when" covers every archive, "declared sizes that disagree with content"
+		// included. Judged last in the run: nothing else is evaluated after a refused extraction.
+		res.Probes["zip-check-accepted-what-extraction-refused(data contradict declaration)"]++
+		res.Fail("C12", "unzip-iff-checkzip-data", "the zip check accepts an archive that extraction refuses because an entry's data contradict its declared size or checksum",
+			"CheckZip error=%v; Unzip error=%v; reading the archive back: %v; entries %v", zerr, uerr, lerr, listingDesc(listing))
 		return c12Done(res, mod.m.String(), source, targetState, entries, archive)
 	}
 	if uerr == nil {
